@@ -18,9 +18,9 @@ from checks import smallworld
 
 FAM = {
     "C01": dict(fam="break", events=("Load", "Break")),
-    "C02": dict(fam="make", events=("Make",)),
+    "C02": dict(fam="make,fixed", events=("Make",)),
     "C03": dict(fam="rt", events=("RT", "RT2")),
-    "C06": dict(fam="convert", events=("Convert",)),
+    "C06": dict(fam="convert,fixed", events=("Convert",)),
     "C10": dict(fam="limits,fixed", events=("Break", "Make", "Convert", "RT", "RT2", "Next", "Prev")),
     "C11": dict(fam="trans", events=("Next", "Prev", "ChainEnd")),
     "C14": dict(fam="history,fixed", events=("Break", "Make", "Next", "Prev")),
